@@ -894,4 +894,47 @@ theorem bsearch_idx_mono_any (s : List Nat) {a b : Nat} (hab : a ≤ b) :
     simp only [Nat.compare_eq_lt] at h ⊢
     omega
 
+/-! ## `weighted_quantiles`: shape of the result -/
+
+namespace Hilbert
+
+theorem stepAll_length (n : Nat) (pos : Array Nat) (pw : Array Float) (total : Float) :
+    ∀ (splits : List Split) (p : Nat) (acc : Float),
+      (stepAll n pos pw total splits p acc).1.length = splits.length
+  | [], _, _ => rfl
+  | s :: ss, p, acc => by
+    simp only [stepAll, List.length_cons]
+    rw [stepAll_length n pos pw total ss]
+
+theorem refine_length (n : Nat) (idxs : Array Nat) (ws : Array Float) :
+    ∀ (fuel : Nat) (splits : List Split) (todo : Nat) (out : List Split),
+      refine n idxs ws fuel splits todo = some out → out.length = splits.length := by
+  intro fuel
+  induction fuel with
+  | zero =>
+    intro splits todo out h
+    cases todo with
+    | zero => simp only [refine, Option.some.injEq] at h; rw [← h]
+    | succ t => simp [refine] at h
+  | succ f ih =>
+    intro splits todo out h
+    cases todo with
+    | zero => simp only [refine, Option.some.injEq] at h; rw [← h]
+    | succ t =>
+      simp only [refine] at h
+      rw [ih _ _ _ h, stepAll_length]
+
+/-- What `weighted_quantiles` returns (when the refinement loop ends) is sorted and has
+`n - 1` entries – one split per part boundary (no `dedup` any more). -/
+theorem quantiles_sorted_len (fuel : Nat) (idxs : List Nat) (ws : List Float) (n : Nat) (pos : List Nat)
+    (h : quantiles fuel idxs ws n = some pos) : pos.Pairwise (· ≤ ·) ∧ pos.length = n - 1 := by
+  simp only [quantiles, quantilesRaw, Option.map_eq_some_iff] at h
+  obtain ⟨raw, ⟨out, hout, hraw⟩, hpos⟩ := h
+  subst hpos
+  refine ⟨pairwise_sortAsc raw, ?_⟩
+  rw [(perm_sortAsc raw).length_eq, ← hraw, List.length_map, refine_length _ _ _ _ _ _ _ hout]
+  simp
+
+end Hilbert
+
 end Coupe.Sfc
